@@ -1159,6 +1159,11 @@ def _run(ck: Check):
     ck.extra["configurations_checked"] = done
     probe_eigh_degenerate(ck, rng)
     ck.extra["tensor_constructors_without_dtype_or_device"] = scan_constructors()
+    sw = scan_switch_points()
+    ck.extra["formula_switch_points"] = sw
+    unm = [x["where"] for x in sw if x["tested_by"].startswith("NOT MAPPED")]
+    if unm:
+        ck.notes.append("formula switch points without a mapped configuration: " + "; ".join(unm[:8]))
     ck.extra["leaves_not_differentiated_and_why"] = [
         "sampling times of real tree models, alignment, weights, covariates: data (not Parameters)",
         "FakeTreeModel sampling-time entries: differentiated when untied and positive for constant / exponential / "
@@ -1223,6 +1228,66 @@ def scan_constructors():
                 if not ({"dtype", "device"} & kws) and None not in kws:
                     found.append(f"{rel}:{node.lineno} torch.{node.func.attr}(...)")
     return found
+
+
+SWITCH_FILES = ANCHORED + ["torchtree/evolution/birth_death.py", "torchtree/distributions/gmrf_integrated.py"]
+SWITCH_TESTED_BY = [
+    ("PiecewiseLinearCoalescentGrid.log_prob", "coal/pwlinear/*: equal / neighbours-equal / near-equal thetas with the thetas "
+     "DIFFERENTIATED (series branch of log1p(x)/x), grid beyond the root, tips on grid points via the tie signature"),
+    ("PiecewiseConstantCoalescentGrid.log_prob", "every coal/skygrid configuration (mask selections) + equal thetas differentiated"),
+    ("SoftPiecewiseConstantCoalescentGrid.log_prob", "every coal/skygrid_soft configuration + equal thetas differentiated"),
+    ("PiecewiseConstantCoalescent.log_prob", "every coal/skyride configuration + equal thetas differentiated"),
+    ("PiecewiseConstantBirthDeath.log_prob", "bdsk_epochs/* (s, rho, r at 0/1 per epoch, singles and pairs, tips of every class), "
+     "bdsk/*/rho=..,r=.. cells"),
+    ("BirthDeath.log_prob", "birth_death_model/*/rho=0, rho=1 and bd/BirthDeath.log_prob"),
+    ("TreeLikelihoodModel", "like/*/underflow-switch (threshold / isinf switch to the rescaled pass), rescale=0/1 everywhere"),
+    ("calculate_treelikelihood_discrete_safe", "like/*/underflow-switch"),
+    ("maximum_likelihood", "not on a differentiated path (point estimate helper)"),
+    ("sufficient_statistics", "not on a differentiated path (statistics for the Gibbs operator)"),
+    ("process_data_coalesent", "not on a differentiated path (JSON data parsing)"),
+    ("update_bounds", "not on a differentiated path (bounds from sampling times; C06)"),
+    ("_grouped_statistics", "not on a differentiated path (statistics for the Gibbs operator)"),
+    ("DifferenceNodeHeightTransform", "constructor option k (hard max when k <= 0): ReparameterizedTimeTreeModel only builds k = 0, "
+     "exercised by every */shift tree configuration; the max itself is covered by the tie signature"),
+]
+
+
+def scan_switch_points():
+    """places where the anchored code SELECTS A FORMULA from the data: torch.where, comparisons with a constant
+    (abs() < c, == 0, != 0, > 0.0), nonzero().  Each is listed with the configurations that sit ON the switch."""
+    import ast
+
+    from common import REPO
+
+    out = []
+    for rel in SWITCH_FILES:
+        try:
+            src = (REPO / rel).read_text()
+            tree = ast.parse(src)
+        except Exception:
+            continue
+        lines = src.splitlines()
+
+        def visit(node, qual):
+            for ch in ast.iter_child_nodes(node):
+                q = qual
+                if isinstance(ch, (ast.FunctionDef, ast.ClassDef)):
+                    q = (qual + "." if qual else "") + ch.name
+                hit = None
+                if isinstance(ch, ast.Call) and isinstance(ch.func, ast.Attribute) and ch.func.attr in ("where", "nonzero", "isinf"):
+                    hit = ch.func.attr
+                elif isinstance(ch, ast.Compare) and any(isinstance(c, ast.Constant) and isinstance(c.value, (int, float))
+                                                         and not isinstance(c.value, bool) for c in ch.comparators):
+                    hit = "compare-with-constant"
+                if hit and qual:
+                    tested = next((t for k, t in SWITCH_TESTED_BY if k in qual), None)
+                    out.append({"where": f"{rel}:{ch.lineno} in {qual}", "kind": hit,
+                                "code": lines[ch.lineno - 1].strip()[:90],
+                                "tested_by": tested or "NOT MAPPED to a configuration"})
+                visit(ch, q)
+
+        visit(tree, "")
+    return out
 
 
 KNOWN_SIG_EIGH = "wrong-gradient:eigh-repeated-eigenvalue:HKY-uniform-frequencies"
